@@ -173,7 +173,7 @@ def run_impl(case, mods, noise=None):
     # complete-model tie: Cauchy search (number of projections it performed, returned alpha), every point handed to
     # subproblem_optimality (the Cauchy point and every SPG iterate) with the number of root finds so far
     nproj = [0]
-    orig_p, orig_cp, orig_so, orig_b = TR.project, TR.find_generalized_cauchy_point, TR.subproblem_optimality, TR.optimize.brentq
+    orig_p, orig_cp, orig_so, orig_b = TR.project, TR.find_generalized_cauchy_point, TR.subproblem_optimality, _opt(TR).brentq
 
     def logged_p(x, b):
         nproj[0] += 1
@@ -198,7 +198,9 @@ def run_impl(case, mods, noise=None):
         r = orig_b(f, a, b, **k)
         tlog.append(float(r[0] if isinstance(r, tuple) else r))
         return r
-    TR.project, TR.find_generalized_cauchy_point, TR.subproblem_optimality, TR.optimize.brentq = logged_p, logged_cp, logged_so, logged_b
+    TR.project, TR.find_generalized_cauchy_point, TR.subproblem_optimality = logged_p, logged_cp, logged_so
+    if orig_b is not None:
+        TR.optimize.brentq = logged_b
     alphas = []
     orig_k = TR.kouri_exact_line_search
 
@@ -235,7 +237,9 @@ def run_impl(case, mods, noise=None):
         TR.solve_spg_subproblem = orig
         TR.kouri_exact_line_search = orig_k
         TR.is_converged = orig_c
-        TR.project, TR.find_generalized_cauchy_point, TR.subproblem_optimality, TR.optimize.brentq = orig_p, orig_cp, orig_so, orig_b
+        TR.project, TR.find_generalized_cauchy_point, TR.subproblem_optimality = orig_p, orig_cp, orig_so
+        if orig_b is not None:
+            TR.optimize.brentq = orig_b
     return dict(x=x, flag=flag, log=[e for e in obj.log if e[0] in ('cb', 'pc')], full=list(obj.log), brents=tlog, props=props, obj=obj, settings=st, err=err, bounds=bounds, conv_margin=margin[0],
                 min_alpha=min([a for a in alphas if a == a] + [0.0]))
 
@@ -500,6 +504,15 @@ def convex_box_stream(ctx, mods):
     ctx.cov['convex_box_history_resolves'] = n_hist
 
 
+class _NoOptimize:
+    """stand-in when TrustRegionSPG no longer imports scipy.optimize (project_onto_tr rewritten without brentq): nothing to log"""
+    brentq = None
+
+
+def _opt(TR):
+    return getattr(TR, 'optimize', None) or _NoOptimize
+
+
 def gen_projection_cases(ctx, count):
     r = ctx.rng('proj')
     out = []
@@ -509,6 +522,12 @@ def gen_projection_cases(ctx, count):
         bs, xk = gen_box(r, xk0)
         x = [t + r.gauss(0, 1) * 10 ** r.uniform(-2, 1) for t in xk]
         tr = 10 ** r.uniform(-3, 1)
+        if n >= 2 and r.random() < 0.2:
+            # badly scaled target: one displacement component 1e6..1e10 times the others (spectral step length times an ill-scaled model
+            # gradient), stopped early by a bound or not, the radius reached only after that clip
+            i = r.randrange(n)
+            x[i] = xk[i] + r.choice((-1, 1)) * 10 ** r.uniform(6, 10)
+            tr = 10 ** r.uniform(-1, 1.5)
         out.append(dict(n=n, x=x, xk=xk, bounds=bs, tr=tr))
     return out
 
@@ -623,7 +642,9 @@ def correspondence(ctx, model_ok):
     # ---- direct calls of project / project_onto_tr, brentq's answer logged
     pcases = gen_projection_cases(ctx, ctx.n(150, 1500))
     pouts = []
-    orig_b = TR.optimize.brentq
+    orig_b = _opt(TR).brentq
+    if orig_b is None:
+        ctx.fail('correspondence', 'TrustRegionSPG no longer calls scipy.optimize.brentq: the root-find oracle of the project_onto_tr model cannot be tied')
     for c in pcases:
         tlog = []
 
@@ -631,7 +652,8 @@ def correspondence(ctx, model_ok):
             r = orig_b(f, a, b, **k)
             tlog.append(float(r[0] if isinstance(r, tuple) else r))
             return r
-        TR.optimize.brentq = logged
+        if orig_b is not None:
+            TR.optimize.brentq = logged
         try:
             bj = jnp.array([[lo, hi] for lo, hi in c['bounds']])
             p = TR.project(jnp.array(c['x']), bj)
@@ -641,7 +663,8 @@ def correspondence(ctx, model_ok):
             pouts.append(None)
             continue
         finally:
-            TR.optimize.brentq = orig_b
+            if orig_b is not None:
+                TR.optimize.brentq = orig_b
         p, q = [float(t) for t in p], [float(t) for t in q]
         pouts.append(dict(p=p, q=q, t=tlog[0] if tlog else 0.0, root=bool(tlog)))
         if tlog:
